@@ -196,6 +196,12 @@ theorem validateDefault_grow {E : Env} {P : Nat} (t : TraitCore) (v : Id) (c : C
       · exact ⟨CGrow.ofSame _ h rfl rfl, rfl, fun u hu => by
           simp at hu; subst hu; exact hv k hk _ _ _ hr⟩
 
+theorem warn_ok {E : Env} {r : Except Exc Id} {v : Id} (h : warnOnAttributeError E r = .ok v) : r = .ok v := by
+  unfold warnOnAttributeError at h
+  split at h
+  · split at h <;> cases h
+  · exact h
+
 /-- **Freshness of one default computation.** -/
 theorem defaultValueFor_grow {E : Env} {P : Nat} (t : TraitCore) (obj : Id) (name : Name) (c : Ctx)
     (h : CtxWF P c) (g : GoodCore E P c t) :
@@ -221,19 +227,22 @@ theorem defaultValueFor_grow {E : Env} {P : Nat} (t : TraitCore) (obj : Id) (nam
     · rw [h1.2.1, h1.2.2]; exact Nat.lt_succ_self _
   split
   · have h1 := callFactory_grow (E := E) (t.dv.getD noneId) obj name noneId c h g.factory
-    exact ⟨h1.1, fun v hv => (h1.2 v hv).elim Or.inl (fun x => Or.inr (Or.inr x))⟩
+    cases hc : callFactory E (t.dv.getD noneId) obj name noneId c with
+    | mk r c1 =>
+      rw [hc] at h1
+      exact ⟨h1.1, fun v hv => (h1.2 v (warn_ok hv)).elim Or.inl (fun x => Or.inr (Or.inr x))⟩
   split
   · have h1 := callFactory_grow (E := E) (t.dv.getD noneId) obj name obj c h g.factory
     cases hc : callFactory E (t.dv.getD noneId) obj name obj c with
     | mk r c1 =>
       rw [hc] at h1
       cases r with
-      | error e => exact ⟨h1.1, fun v hv => by simp at hv⟩
+      | error e => exact ⟨h1.1, fun v hv => by have := warn_ok hv; cases this⟩
       | ok v0 =>
         have h2 := validateDefault_grow (E := E) t v0 c1 c.alloc h1.1.wf g.validate
         refine ⟨h1.1.trans h2.1, fun u hu => ?_⟩
         simp only [] at hu ⊢
-        rcases h2.2.2 u hu with e | e
+        rcases h2.2.2 u (warn_ok hu) with e | e
         · subst e
           rw [h2.2.1]
           exact (h1.2 u rfl).elim Or.inl (fun x => Or.inr (Or.inr x))
